@@ -31,6 +31,10 @@ MUTANTS = [
     ('z2rank', '                mat[j, i:] = (mat[j, i:] + mat[r, i:])%2', '                mat[j, i+1:] = (mat[j, i+1:] + mat[r, i+1:])%2'),
     ('z2inv', '    for i in range(n-1,0,-1):', '    for i in range(n-1,1,-1):'),
     ('z2inv', '    return a[:,n:]', '    return a[:,:n]'),
+    ('pauli_diagonalize2', '        g[2*i0] = 0\n        g[2*i0+1] = 1\n        gs.append(g)\n        g2 = (g2 + g)%2', '        g[2*i0] = 1\n        g[2*i0+1] = 1\n        gs.append(g)\n        g2 = (g2 + g)%2'),
+    ('stabilizer_entropy', '        entropy = numpy.sum(mask) - (L - z2rank(gs[:, ~mask2]))', '        entropy = numpy.sum(mask) - (L - z2rank(gs[:, mask2]))'),
+    ('random_pauli', '        gs[2*i+1,2*i:2*i+2] = g2', '        gs[2*i+1,2*i:2*i+2] = g1'),
+    ('condense', '    return g[numpy.repeat(mask, 2)], qubits', '    return g[numpy.repeat(mask, 2)], qubits + 1'),
 ]
 
 
